@@ -134,6 +134,20 @@ def gen_history(rng, max_commits=25):
     return mg.Repo("r", commits, heads, tags, other_tags=other_tags)
 
 
+def keeping_collection(repo):
+    """a collection whose project class hands out ONE builds detector for all its reports (the documented hook
+    make_builds_detector(), overridden to avoid reading the tags again and again)"""
+    base = type(mg.repo_for('r', repo))
+    kept = {}
+
+    def make_builds_detector(self):
+        if 'd' not in kept:
+            kept['d'] = base.make_builds_detector(self)
+        return kept['d']
+    keeper = type(base.__name__ + "KeepsDetector", (base,), {"make_builds_detector": make_builds_detector})
+    return ReposCollection({'r': keeper('r', repo, repo.remote)})
+
+
 def collection_for(repo):
     """the collection of one project: given a ready project object or, for every third history, the repository
     itself (with the remote's name unless that is the default) - the project class is then looked up in the
@@ -289,6 +303,15 @@ def judge(ctx, repo, text, case, repos=None, repo_id=None):
         return
     tagged = set(repo.tags.values())
     both_trunks = "origin/master" in repo.branches and "origin/main" in repo.branches
+    by_name = rgraph.get_rbranches_by_name() if hasattr(rgraph, "get_rbranches_by_name") else None
+    if by_name is not None and not both_trunks:
+        # the documented by-name view of the same report: every reported branch, under its name
+        ctx.count("by_name_views_compared")
+        if list(by_name) != [br.branch_name for br in rgraph.branches] or any(
+                by_name[br.branch_name] is not br for br in rgraph.branches):
+            ctx.violation("by-name-view-of-the-report-differs-from-its-branches",
+                          {"branches": [br.branch_name for br in rgraph.branches], "by_name": list(by_name)}, case)
+            return
     if not both_trunks:
         order, exp = mg.branch_oracle(repo)
         problems, listed_by_branch = branch_problems(ctx.count, repo, rgraph, matching, tagged, order, exp, None)
@@ -453,6 +476,11 @@ def run_shard(ctx):
                 judge(ctx, repo, text, {"repo": descr, "text": text, "late_tags": list(late_tags),
                                         "earlier_texts_on_same_collection":
                                         texts[:k] if shared is not None else []}, shared)
+            if shared is None and not late_tags and len(repo.tags) % 3 == 1:
+                coll = keeping_collection(repo)
+                for k in range(2):
+                    judge(ctx, repo, texts[0], {"repo": descr, "text": texts[0], "kept_detector": k + 1}, coll)
+                ctx.count("histories_reported_twice_with_one_builds_detector")
             if i < 2:
                 ctx.sample({"commits": [[c[0], c[1], c[2][:20]] for c in descr["commits"]],
                             "branches": descr["branches"], "tags": descr["tags"]})
@@ -502,5 +530,10 @@ def replay(ctx, case):
                     judge(ctx, repo, case["text"], case, disk_collection(repo, git_dir, k, 0.0)[0])
         finally:
             shutil.rmtree(git_top, ignore_errors=True)
+        return
+    if case.get("kept_detector"):
+        coll = keeping_collection(repo)
+        for k in range(case["kept_detector"]):
+            judge(ctx, repo, case["text"], case, coll)
         return
     judge(ctx, repo, case["text"], case, shared)
